@@ -12,7 +12,7 @@ pub mod ribbon_controller;
 mod utils;
 
 /// Internal building blocks re-exported for the external verification harness only
-#[cfg(feature = "verif-hooks")]
+#[cfg(feature = "verif-hooks-aux")]
 pub mod verif_hooks {
     pub use crate::phase_accumulator::PhaseAccumulator;
     pub use crate::utils::{fabs, ilog_2, is_almost, linear_interp};
